@@ -352,6 +352,27 @@ func spBitmap(k int, blocks bool, withClip bool, stride uint64, level int) *Bool
 		}}
 }
 
+// spDoubled: three lattice rectangles plus a fourth one given twice with opposite orientations (the pair cancels
+// under every fill rule but leaves coincident edges of both directions for the sweep and the horizontal joins).
+func spDoubled(e enum.Embed, k int, stride uint64, level int) *BoolSpace {
+	rs := latticeRects(k, false)
+	n := uint64(len(rs))
+	total := n * n * n * n
+	var rev Path
+	return &BoolSpace{Name: fmt.Sprintf("N/rect^3 + one rectangle twice with opposite orientations (L%d), every %d-th/%s", k, stride, e.Name), Level: level, Size: (total + stride - 1) / stride, E: e,
+		Gen: func(idx uint64, g *genBuf) (Paths, Paths) {
+			g.reset()
+			idx *= stride
+			g.p[0] = embedPath(e, rs[idx%n], g.p[0])
+			g.p[1] = embedPath(e, rs[(idx/n)%n], g.p[1])
+			g.p[2] = embedPath(e, rs[(idx/(n*n))%n], g.p[2])
+			g.p[3] = embedPath(e, rs[idx/(n*n*n)], g.p[3])
+			rev = append(rev[:0], g.p[3][3], g.p[3][2], g.p[3][1], g.p[3][0])
+			g.s = append(g.s, g.p[0], rev, g.p[1], g.p[2], g.p[3])
+			return g.s, nil
+		}}
+}
+
 // spHardInputs: fixed inputs kept from earlier findings that lie beyond the enumerated scopes
 // (known/hard_inputs.json: name, subject, clip).
 func spHardInputs() *BoolSpace {
@@ -420,7 +441,7 @@ func init() {
 				out = append(out, c04Scope(spSingle(enum.Eax, 3, 4, 2), all), c04Scope(spSingle(enum.Eax, 3, 5, 3), all), c04Scope(spSingle(enum.Esh, 3, 5, 3), all))
 				out = append(out, c04Scope(spPair("B2", enum.Eax, 3, 3, 3, 4), all), c04Scope(spTwo(enum.Esh, 3, 3, 4), all))
 				out = append(out, c04Scope(spRects(enum.Eax, 4, 5), all), c04Scope(spNest(enum.Eax, 4, false, 5), nestOps), c04Scope(spThree(enum.Eax, 13, 5), all), c04Scope(spBars(15, false, 6), nestOps), c04Scope(spTwoLevel(11, 7, 5), all), c04Scope(spThree(enum.Ean, 17, 5), all),
-					c04Scope(spBitmap(4, false, false, 1, 6), nestOps), c04Scope(spBitmap(3, false, true, 1, 6), all), c04Scope(spBitmap(4, true, true, 30011, 7), all), c04Scope(spHardInputs(), all))
+					c04Scope(spBitmap(4, false, false, 1, 6), nestOps), c04Scope(spBitmap(3, false, true, 1, 6), all), c04Scope(spBitmap(4, true, true, 30011, 7), all), c04Scope(spDoubled(enum.Eax, 4, 11, 6), nestOps), c04Scope(spHardInputs(), all))
 				return out
 			}
 			for _, e := range []enum.Embed{enum.Eax, enum.Esh, enum.Ean} {
@@ -428,7 +449,7 @@ func init() {
 				out = append(out, c04Scope(spPair("B2", e, 3, 3, 3, 4), all), c04Scope(spTwo(e, 3, 3, 4), all))
 			}
 			out = append(out, c04Scope(spRects(enum.Eax, 4, 5), all), c04Scope(spNest(enum.Eax, 4, true, 5), nestOps), c04Scope(spNest(enum.Eax, 5, false, 6), nestOps), c04Scope(spShapes(enum.Eax, 5, 6), nestOps), c04Scope(spBars(17, false, 6), nestOps), c04Scope(spBars(13, true, 6), nestOps),
-				c04Scope(spBitmap(4, false, false, 1, 6), nestOps), c04Scope(spBitmap(3, false, true, 1, 6), all), c04Scope(spBitmap(4, true, false, 1, 7), nestOps), c04Scope(spBitmap(4, true, true, 1009, 7), all), c04Scope(spBitmap(5, false, false, 7, 7), nestOps), c04Scope(spHardInputs(), all))
+				c04Scope(spBitmap(4, false, false, 1, 6), nestOps), c04Scope(spBitmap(3, false, true, 1, 6), all), c04Scope(spBitmap(4, true, false, 1, 7), nestOps), c04Scope(spBitmap(4, true, true, 1009, 7), all), c04Scope(spBitmap(5, false, false, 7, 7), nestOps), c04Scope(spDoubled(enum.Eax, 4, 1, 6), nestOps), c04Scope(spHardInputs(), all))
 			return out
 		},
 	})
